@@ -531,7 +531,7 @@ fn run_corpus(
 fn main() {
   let args: Vec<String> = std::env::args().skip(1).collect();
   let mut ctx = Ctx::from_args("C22", "exploration", &args);
-  ctx.rule = "each case generates one corpus (5-70 documents without repeated ids, vocabulary of 8-160 words sharing prefixes, string and string-array values) over 5 text fields (default, unicode, edge-ngram index analyzer, search_as_you_type, stopwords+stemmer) and 2 keyword fields, indexes it under three commit layouts (1 commit, and two random splits into up to 4 commits) and sends 30 completion requests (prefixes of 0-6 characters cut from dictionary terms, upper-cased, multi-token, punctuation-only, non-matching; sizes 0-300; with and without a fuzzy option grid) to each index twice. evaluations = (request, layout) answers judged against the independently rebuilt dictionary plus one cross-layout comparison per request. A request is non-trivial (counted once by hash of dictionary+field+prefix+size+fuzzy) when at least one dictionary term qualifies and at least one option was returned.".into();
+  ctx.rule = "each case generates one corpus (5-70 documents without repeated ids, vocabulary of 8-160 words sharing prefixes, string and string-array values) over 5 text fields (default, unicode, edge-ngram index analyzer, search_as_you_type, stopwords+stemmer) and 2 keyword fields, indexes it under three commit layouts (1 commit, and two random splits into up to 4 commits) and sends 30 (quick) or 60 (thorough) completion requests (prefixes of 0-6 characters cut from dictionary terms, upper-cased, multi-token, punctuation-only, non-matching; sizes 0-300; with and without a fuzzy option grid) to each index twice. evaluations = (request, layout) answers judged against the independently rebuilt dictionary plus one cross-layout comparison per request. A request is non-trivial (counted once by hash of dictionary+field+prefix+size+fuzzy) when at least one dictionary term qualifies and at least one option was returned.".into();
   ctx.assumptions = vec![
     "corpora have no pending deletions and no repeated ids (as the property restricts); every commit creates exactly one segment (no background merging), which the check verifies via the reader's segment count".into(),
     "doc_freq equality and layout independence are judged only while the number of DISTINCT qualifying dictionary terms is below the smallest value the scan cap can take (64, and max(min(max_expansions,256),size) with fuzzy if smaller); above it only size, order, membership, prefix/edit constraints and doc_freq <= dictionary count are judged".into(),
@@ -540,7 +540,7 @@ fn main() {
     "scores are only required to order the options (score desc, then text asc); the score formula is undocumented, so the exact option SET is not judged against a doc_freq ranking (reported as counters nonfuzzy_equals_top_by_doc_freq / nonfuzzy_differs_from_top_by_doc_freq only)".into(),
     "cross-layout comparison tolerates relative score differences of 1e-4 and reorderings/substitutions among options whose scores tie within that tolerance (f32 summation order)".into(),
   ];
-  let n = ctx.n(100, 6000);
+  let n = ctx.n(300, 20_000);
   let quick = ctx.quick();
   // ---------------- directed minimal corpora (deterministic; same oracle)
   ctx.run_cases("directed", 1, |_rng: &mut Rng, l: &mut Local, scratch| {
